@@ -1,6 +1,7 @@
 package rules
 
 import (
+	"go/types"
 	"fmt"
 	"go/token"
 	"strings"
@@ -174,12 +175,14 @@ func runC20(c *core.Ctx) {
 		}
 		bad := ""
 		nOK := 0
+		outerConv := conv
+		conv := scalarUnit(c, outerConv)
 		for _, ret := range core.Returns(conv) {
 			if !core.Guarded(conv, ret, core.IsTrue(isOK)) {
 				continue
 			}
 			nOK++
-			if !successReturn(ret) {
+			if !okReturn(ret) {
 				bad = "convertFrom refuses (at " + c.Pos(ret.Pos()) + ") an integer source whose value was already extracted: some values of a compatible integer type (an unsigned value >= 2^63 travels as a negative int64) are rejected instead of preserved"
 			}
 		}
@@ -258,8 +261,51 @@ func runC20(c *core.Ctx) {
 	}
 }
 
-func ruleKindGuards(c *core.Ctx, conv *ssa.Function) {
+// scalarUnit: the function holding the scalar cases of the conversion —
+// convertFrom itself, or a helper convertFrom hands its two values to,
+// unchanged and in order (convertScalar(v, w)).
+func scalarUnit(c *core.Ctx, conv *ssa.Function) *ssa.Function {
+	has := func(f *ssa.Function) bool {
+		for _, call := range core.Calls(f) {
+			if g := core.StaticCallee(call); g != nil && core.FuncKey(g) == "reflect.Value.SetBool" {
+				return true
+			}
+		}
+		return false
+	}
+	if has(conv) {
+		return conv
+	}
+	for _, call := range core.Calls(conv) {
+		g := core.StaticCallee(call)
+		if g == nil || !inRepo(g) || g == conv || len(g.Params) != 2 || !has(g) {
+			continue
+		}
+		a := call.Common().Args
+		if core.Canon(a[0]) == ssa.Value(conv.Params[0]) && (core.Canon(a[1]) == ssa.Value(conv.Params[1]) ) {
+			return g
+		}
+	}
+	return conv
+}
+
+// okReturn: a return that reports success: nil error, or true for a helper
+// reporting "converted" as a boolean.
+func okReturn(r *ssa.Return) bool {
+	if len(r.Results) == 1 {
+		if b, isConst := core.ConstBool(core.RetVal(r, 0)); isConst {
+			return b
+		}
+		if _, isBool := r.Results[0].Type().Underlying().(*types.Basic); isBool && !core.IsErrorType(r.Results[0].Type()) {
+			return true // a computed boolean: may be true
+		}
+	}
+	return successReturn(r)
+}
+
+func ruleKindGuards(c *core.Ctx, outer *ssa.Function) {
 	const rule = "C20.kind-guards"
+	conv := scalarUnit(c, outer)
 	w := ssa.Value(conv.Params[1])
 	isWKind := func(v ssa.Value) bool {
 		cl := reflectCall(core.StripConv(v), "Kind")
@@ -334,24 +380,30 @@ func ruleKindGuards(c *core.Ctx, conv *ssa.Function) {
 			c.Fail(rule, "type/conversion.convertFrom/"+name, conv.Pos(), "convertFrom no longer handles "+name)
 		}
 	}
-	// nil returns of convertFrom follow a setter or a delegated converter
+	// success returns follow a setter or a delegated converter
 	ok := true
-	for _, ret := range core.Returns(conv) {
-		if !successReturn(ret) {
-			continue
+	isSetter := func(x ssa.Instruction) bool {
+		cl, isCall := x.(*ssa.Call)
+		if !isCall {
+			return false
 		}
-		if !core.MustPassBefore(conv, ret, func(x ssa.Instruction) bool {
-			cl, isCall := x.(*ssa.Call)
-			if !isCall {
-				return false
+		f := cl.Call.StaticCallee()
+		return f != nil && (strings.HasPrefix(core.FuncKey(f), "reflect.Value.Set") || (f == conv && conv != outer))
+	}
+	for _, fn := range []*ssa.Function{conv, outer} {
+		for _, ret := range core.Returns(fn) {
+			if !okReturn(ret) {
+				continue
 			}
-			f := cl.Call.StaticCallee()
-			return f != nil && strings.HasPrefix(core.FuncKey(f), "reflect.Value.Set")
-		}) {
-			ok = false
+			if !core.MustPassBefore(fn, ret, isSetter) {
+				ok = false
+			}
+		}
+		if conv == outer {
+			break
 		}
 	}
-	c.Check(ok, rule, "type/conversion.convertFrom/fallthrough", conv.Pos(), "nil is returned only after a value was set; everything else ends in the conversion error", "convertFrom can return nil without having converted anything")
+	c.Check(ok, rule, "type/conversion.convertFrom/fallthrough", outer.Pos(), "success is reported only after a value was set; everything else ends in the conversion error", "convertFrom can report success without having converted anything")
 	// AsInt64
 	if asInt == nil {
 		c.Undecided(rule, "type/conversion.AsInt64", token.NoPos, "anchor not found")
